@@ -1,22 +1,23 @@
 (* Proof/ChanPipeSpec.v -- the invariants hold along every schedule; the C04 statements. *)
 From Coq Require Import List Arith Bool ZArith Lia.
-From WV Require Import Model.ChanPipe Proof.ChanPipeBase Proof.ChanPipeOwn Proof.ChanPipeLog
-                       Proof.ChanPipeOut Proof.ChanPipeOutStep Proof.ChanPipeQuiet.
+From WV Require Import Model.ChanPipe Proof.ChanPipeBase Proof.ChanPipeBaseStep Proof.ChanPipeOwn Proof.ChanPipeOwnStep
+                       Proof.ChanPipeLog Proof.ChanPipeLogStep Proof.ChanPipeOut Proof.ChanPipeOutStep
+                       Proof.ChanPipeQuiet Proof.ChanPipeQuietStep Proof.ChanPipeArr Proof.ChanPipeArrStep.
 Import ListNotations.
 
 Section Run.
 Variable P : params.
 
-Definition Inv (st : state) : Prop := L0 st /\ L1 st /\ L2 st /\ (p_unlocked P = false -> L3' P st) /\ L4 P st.
+Definition Inv (st : state) : Prop := L0 st /\ L1 st /\ L2 st /\ (p_unlocked P = false -> L3' P st) /\ L4 P st /\ L5 P st.
 
 Lemma Inv_init : Inv init.
-Proof. split; [apply L0_init | split; [apply L1_init | split; [apply L2_init | split; [intros _; apply L3_init | apply L4_init]]]]. Qed.
+Proof. split; [apply L0_init | split; [apply L1_init | split; [apply L2_init | split; [intros _; apply L3_init | split; [apply L4_init | apply L5_init]]]]]. Qed.
 
 Lemma Inv_step : forall st c st' l, Inv st -> step P st c = Some (st', l) -> Inv st'.
 Proof.
-  intros st c st' l (H0 & H1 & H2 & H3 & H4) Hs.
+  intros st c st' l (H0 & H1 & H2 & H3 & H4 & H5) Hs.
   split; [eapply L0_step; eauto | split; [eapply L1_step; eauto | split; [eapply L2_step; eauto |
-  split; [intro Hu; eapply L3_step; eauto | eapply L4_step; eauto]]]].
+  split; [intro Hu; eapply L3_step; eauto | split; [eapply L4_step; eauto | eapply L5_step; eauto]]]]].
 Qed.
 
 Lemma Inv_exec : forall sched st, Inv st -> Inv (fold_left (exec1 P) sched st).
@@ -74,13 +75,16 @@ Qed.
 Lemma prefix_NoDup : forall (A : Type) (a b : list A), prefix a b -> NoDup b -> NoDup a.
 Proof. intros A a b [r ->] H. eapply NoDup_app_l; eauto. Qed.
 
-Corollary once_nodup : forall sched,
+Theorem arrivals_nodup : forall sched, NoDup (arrivals (sh (run P sched))).
+Proof. intro sched. destruct (Inv_run sched) as (_ & _ & _ & _ & _ & H5). apply (L5_NoDup P _ H5). Qed.
+
+Theorem once_nodup : forall sched,
   let s := sh (run P sched) in
-  NoDup (arrivals s) -> NoDup (starts s) /\ NoDup (execs s).
+  NoDup (arrivals s) /\ NoDup (starts s) /\ NoDup (execs s).
 Proof.
-  intros sched s Hn. destruct (once sched) as [Hp He]. fold s in Hp, He.
+  intros sched s. pose proof (arrivals_nodup sched) as Hn. fold s in Hn. destruct (once sched) as [Hp He]. fold s in Hp, He.
   assert (Hs : NoDup (starts s)) by (eapply prefix_NoDup; eauto).
-  split; auto. destruct He as [E|[x E]].
+  repeat split; auto. destruct He as [E|[x E]].
   - congruence.
   - rewrite E in Hs. eapply NoDup_app_l; eauto.
 Qed.
@@ -103,7 +107,7 @@ Definition C04_wire_full : Prop := forall sched, wire_statement (run P sched).
 
 Theorem wire_full : p_unlocked P = false -> C04_wire_full.
 Proof.
-  intros Hu sched. destruct (Inv_run sched) as (_ & _ & _ & H3 & _). specialize (H3 Hu).
+  intros Hu sched. destruct (Inv_run sched) as (_ & _ & _ & H3 & _ & _). specialize (H3 Hu).
   unfold wire_statement, pending. destruct (o_wire _ _ H3) as [T1 T2]. repeat split; auto.
   - apply (o_prod _ _ H3).
   - apply (o_ids _ _ H3).
@@ -124,7 +128,7 @@ Theorem complete_full : p_unlocked P = false -> forall sched,
   connected (sh st) = true ->
   (forall j, in_task (wpc (wk st j)) = false) -> Forall (complete P) (units (sh st)).
 Proof.
-  intros Hu sched st Hc Hn. destruct (Inv_run sched) as (_ & _ & _ & H3 & _). specialize (H3 Hu).
+  intros Hu sched st Hc Hn. destruct (Inv_run sched) as (_ & _ & _ & H3 & _ & _). specialize (H3 Hu).
   apply (o_done _ _ H3); auto.
 Qed.
 
@@ -133,7 +137,7 @@ Theorem complete_in_task : p_unlocked P = false -> forall sched j,
   connected (sh st) = true -> in_task (wpc (wk st j)) = true ->
   exists us n, units (sh st) = us ++ [UResp (w_cur (wk st j)) n] /\ Forall (complete P) us.
 Proof.
-  intros Hu sched j st Hc Hj. destruct (Inv_run sched) as (_ & _ & _ & H3 & _). specialize (H3 Hu).
+  intros Hu sched j st Hc Hj. destruct (Inv_run sched) as (_ & _ & _ & H3 & _ & _). specialize (H3 Hu).
   destruct (o_task _ _ H3 j Hj) as (_ & _ & us & E & F). exists us, (off_now P (wk st j)). split; auto.
 Qed.
 
@@ -144,7 +148,7 @@ Theorem flush_under_lock : p_unlocked P = false -> forall sched,
   (forall f, io_fl (ipc (io st)) = Some f -> olock (sh st) = Some TIo) /\
   (forall j f, wk_fl (wpc (wk st j)) = Some f -> olock (sh st) = Some (TW j)).
 Proof.
-  intros Hu sched st. destruct (Inv_run sched) as (H0 & _ & _ & H3 & _). specialize (H3 Hu). fold st in H0, H3.
+  intros Hu sched st. destruct (Inv_run sched) as (H0 & _ & _ & H3 & _ & _). specialize (H3 Hu). fold st in H0, H3.
   destruct (l0_o _ H0) as [O1 O2]. split.
   - intros f Hf. apply O1. destruct (io_fl_touch _ _ Hf) as [X|X]; auto.
     rewrite (o_unl _ _ H3) in X. discriminate.
@@ -174,7 +178,7 @@ Theorem quiescent_exactly_once : forall sched,
   requests (sh st) = [] /\ execs (sh st) = arrivals (sh st).
 Proof.
   intros sched st Hnw Hpk Hio Hc Hcl.
-  destruct (Inv_run sched) as (H0 & H1 & H2 & _ & H4). fold st in H0, H1, H2, H4.
+  destruct (Inv_run sched) as (H0 & H1 & H2 & _ & H4 & _). fold st in H0, H1, H2, H4.
   pose proof (all_parked_spec _ _ Hpk) as Hall.
   assert (Hpc : forall j, wpc (wk st j) = WParked \/ wpc (wk st j) = WAcqD).
   { intro j. destruct (Nat.lt_ge_cases j (p_nw P)) as [L|G].
